@@ -59,10 +59,16 @@ def audit_off():
 
 
 def fill(mfa, rng):
+    from ..gen import relayout
+
     k = 1
     for f in mfa.flows.values():
         n = f.values.size
-        f[...] = (k * 4096.0 + rng.permutation(n) * 0.25).reshape(f.dims.shape)
+        v = (k * 4096.0 + rng.permutation(n) * 0.25).reshape(f.dims.shape)
+        if rng.random() < 0.5:
+            f[...] = v
+        else:
+            f.set_values(relayout(v, rng))  # keeps the given memory layout (Fortran order / strided view)
         k += 1
     for s in mfa.stocks.values():
         for arr in (s.stock, s.inflow, s.outflow):
@@ -117,6 +123,11 @@ def one(rec, hub, seed, tier, i, tmpdir):
         rec.skip(M, "stock names not distinct after sanitising")
         return
     mfa = SY.build_system(fd, d)
+    if i % 3 == 2 and len(d.processes) > 2:
+        # a system assembled by hand: same processes (ids as defined), but the dictionary is not in id order
+        order = [d.processes[j] for j in rng.permutation(len(d.processes))]
+        mfa = fd.MFASystem(dims=mfa.dims, parameters=mfa.parameters, processes={n: mfa.processes[n] for n in order}, flows=mfa.flows, stocks=mfa.stocks)
+        d.processes_listed = order
     fill(mfa, rng)
     before = snapshot(mfa)
     shape_sig = f"f={len(d.flows)}|s={len(d.stocks)}|nd={sorted(set(len(f['letters']) for f in d.flows))}"
@@ -220,7 +231,7 @@ def check_dict(rec, fd, d, mfa, before, out, kind, bad, where="dict"):
         bad(f"{where}:dimension-names-differ", got=out["dimension_names"])
     if {k: list(v) for k, v in out["dimension_items"].items()} != {n: list(it) for l, n, it, dt in d.dims}:
         bad(f"{where}:dimension-items-differ")
-    if list(out["processes"]) != d.processes:
+    if list(out["processes"]) != getattr(d, "processes_listed", d.processes):
         bad(f"{where}:process-list-differs", got=list(out["processes"]))
     names = [SY.flow_name(d, f) for f in d.flows]
     if list(out["flows"].keys()) != names:
